@@ -119,6 +119,105 @@ CLAIMS = {
         'technique': 'TLA+/TLC exhaustive enumeration with case export + replay into the real writers + token-string conformance',
         'design_ref': '5/C15',
     },
+    'C06': {
+        'level': 'model_checking',
+        'text': 'Spans.tla transcribes the Zipkin (array and NDJSON, per-key decoder state machine) and OTLP span decoders, onSpan and the trace read path, next to an order-free definition; TLC verifies '
+                'every clause of the statement (one trace row per span with its own ids/parent/times/name/service, one tag row per flattened attribute with the same ids and times, Read(Write(s)) '
+                'agrees with s) on 8 body families (<= 3 spans, <= 2 resources x <= 2 scopes, all id classes, both framings, timestamp kinds, all orders of the optional keys, all subsets of 10 attribute '
+                'shapes) outside named candidate classes. Every finished behaviour is concretised and run through the REAL /v1/traces, /tempo/spans, /api/v2/spans, /tempo/api/push routes, insert services, '
+                'store and /api/traces/{id} (JSON and protobuf); rows and read-back are compared with the statement (verdict) and with the transcription (conformance, 0 deviations).',
+        'note': 'open known findings: NDJSON payload/state/long-line defects, service name depends on key order, short parent id lost on read, OTLP list attributes not indexed, peer.service replaces service.name on read.',
+        'technique': 'TLA+ model checking (TLC) + replay of every exported case through the real writer routes, store and reader routes',
+        'design_ref': '5/C06',
+    },
+    'C07': {
+        'level': 'model_checking',
+        'text': 'LogQLSem.tla defines what a LogQL log query means over a small abstract database (Eval); LogQLPlan.tla transcribes the planners (label-index bitmask, like/notLike/match, label filters with '
+                'coercion, extraction, drop, window/type/order/limit). TLC enumerates the bounded grammar (<= 2 matchers over 4 ops plus the 9-matcher selector, <= 2 line filters, label-filter trees of depth '
+                '<= 2, json / json with params / regexp, drop, window edges, type, limit, direction) on every small database; each case is concretised with hostile strings and decoys, stored (real writer '
+                'series rows, real MVs) and queried through the REAL /loki/api/v1/query_range over chsql; the multiset of (labels, timestamp, line) and the order under a limit must equal Eval.',
+        'note': 'meaning of SQL given by chsql; fragments M, L, P exhaustive, product sampled by seed; 10 open finding families (absent label matchers, 9+ matchers, !~ regex, LIKE escaping, alias scope after the labels join, go-engine limit, nested json path, label filter vs drop, json keyword parse).',
+        'technique': 'TLA+ definition vs mechanism spec, TLC case enumeration, replay through the real query_range over the reference interpreter',
+        'design_ref': '5/C07',
+    },
+    'C08': {
+        'level': 'model_checking',
+        'text': 'LogQLSem!EvalMetric defines bucketing into range windows, the range functions (rate, count/bytes over time, sum|avg|min|max|first|last_over_time and rate over unwrap), vector aggregation with '
+                'by/without in prefix and suffix position, comparison, topk/bottomk, step <,=,> range and the metrics_15s shortcut; LogQLPlan transcribes the SQL planners and the Go post-processors '
+                '(StepFix, FixPeriod, ZeroEater). TLC-enumerated cases are replayed through the REAL query_range with step; every observed (series, time, value) must be allowed by the definition and every '
+                'mandatory point present.',
+        'note': 'dyadic values for exact floats; quantile/stddev/stdvar/absent_over_time excluded; open findings: bytes_over_time divided by range, ungrouped sum not merged, shortcut ignores label filters / misaligned ranges, step>range instants, unwrap without parser, non-numeric unwrap counted as 0, zero points dropped, drop does not merge series (+ the C07 families inside metric pipelines).',
+        'technique': 'TLA+ definition vs mechanism spec, TLC case enumeration, replay through the real query_range over the reference interpreter',
+        'design_ref': '5/C08',
+    },
+    'C09': {
+        'level': 'model_checking',
+        'text': 'InProc.tla defines each in-process stage on whole entry sequences (IP_Eval) and the channel mechanism message by message (IP_Run with named as-coded switches); TLC proves for 55 pipelines, every '
+                'entry sequence and every partition into channel messages (empty messages, end marker) and limit in {0,1,n} that the design equals the definition, is independent of batching, keeps distinct '
+                'label sets distinct and means what the SQL side means by limit. TLC-evaluated cases are replayed into the REAL planned chain (Parse -> Plan -> internal_planner with a scripted upstream) under 3 '
+                'partitions each, and 480 SQL-only vs breakpoint request pairs run end to end through query_range.',
+        'note': 'the code equals its literal transcription on every case; 19 open findings (label_format kills the process on the end marker, limit 0/absent forwards nothing, a malformed line aborts the stream with 200, fingerprint collisions/staleness, min=max, first/last, SQL label_format ignored, ...).',
+        'technique': 'TLA+ definition plus mechanism with as-coded switches, exhaustive TLC, replay of TLC-computed expected results into the real chain, e2e cross-engine comparison',
+        'design_ref': '5/C09',
+    },
+    'C10': {
+        'level': 'model_checking',
+        'text': 'Escape.tla transcribes StringVal.String (8 ordered replacements), doLike and the ClickHouse string-literal and LIKE decoders; TLC proves for every string over 19 character classes up to length 4 '
+                '(thorough 5) that the rendered text is exactly one literal decoding to the string. The spec transducers equal the real code on every exported string, and every string of length <= 3 (plus a '
+                'seeded sample) is placed in 167 string positions of the REAL LogQL, Loki, PromQL, TraceQL, Tempo and Pyroscope routes: the SQL handed to the session has the token structure of a harmless '
+                'string and carries the string only in literals decoding to it.',
+        'note': 'oracle: chsql lexer and LIKE rules; open finding: line-filter LIKE patterns decode to another pattern for strings with a backslash or ending in a quote (value wrong, structure intact).',
+        'technique': 'TLA+/TLC exhaustive check of the escaping transducers + conformance with the code + replay into the real routes with token-level comparison',
+        'design_ref': '5/C10',
+    },
+    'C11': {
+        'level': 'model_checking',
+        'text': 'TraceQLSem.tla defines what a TraceQL query describes (Eval) and, planner by planner, the plan clickhouse_transpiler builds (PlanEval with named deviation rules for the code as written); TLC checks '
+                'on 58k (thorough 1.09M) query x database cases that the plan as designed conforms to the definition. The cases are concretised (hostile strings, numbers, times), stored directly or through the '
+                'real Zipkin/OTLP routes and queried through the REAL /api/search and /api/v2/search/tags|tag/x/values; every generated statement must run on chsql and the answer must be one Eval accepts.',
+        'note': 'open findings: empty WHERE group for duration-only selectors, WHERE prefilter drops duration-only matches, && || right-nested, && intersects span rows, three selectors reference a missing column / third selector unplanned, tags/values v2 ungrouped column, {} limit off-by-one at the window end.',
+        'technique': 'TLA+ model checking (TLC exhaustive layers + TLC-evaluated seeded sample) + replay through the real reader and writer routes over the reference interpreter',
+        'design_ref': '5/C11',
+    },
+    'C13': {
+        'level': 'model_checking',
+        'text': 'Every base-table read of every read endpoint is reduced to a scan descriptor EXTRACTED FROM THE SQL the real routes execute (several windows, 3 process zones, both cluster modes); Window.tla lets TLC '
+                'check each descriptor over all windows, row timestamps, row types and reader/writer zones within 3 days at 15 min resolution for Leak (admitted outside the window / other signal) and Miss '
+                '(in-window row rejected by a date or type bound, given the writer\'s date rule). Every candidate witness is replayed on the REAL endpoint with boundary rows, comparing rows offered/admitted per '
+                'scan (chsql) and the HTTP response.',
+        'note': '17 open signatures (local-zone date upper bounds, FormatFromDate(to) as upper bound, Tempo tag rows stored under the local day, ProfileTypes local dates, LogQL start truncated to seconds); tail not driven.',
+        'technique': 'TLA+/TLC with constants generated from the executed SQL + counterexample replay + scan-level observation',
+        'design_ref': '5/C13',
+    },
+    'C14': {
+        'level': 'model_checking',
+        'text': 'Replan.tla models planner objects with mutable fields (Mutates GENERATED from a reflective field probe of the real planner objects); TLC checks over all interleavings of 2 plan objects x 3 executions '
+                'x 36 query classes that re-execution and fresh translation mean the same. 108 TLC cases and a 700-query LogQL/TraceQL/profile corpus are replayed into the real planners: one plan executed 3x with '
+                'advancing bounds vs a fresh plan, compared by text, chsql tokens, then meaning on a writer-filled store; determinism within and across processes; portions of complex TraceQL requests; the real Tail for 3 ticks; the calls are validated as a Replan behaviour by TLC.',
+        'note': 'open findings: LineFilterPlanner rewrites Val in place (|~ "a\\\\.b" becomes match on the 2nd execution), ByWithoutPlanner re-uses LabelsCache (self-referencing CTE), AttrConditionPlanner strips the AggregatedAttr prefix per call.',
+        'technique': 'TLA+/TLC model checking + TLC case generation + trace validation + differential re-execution with a reflective field probe',
+        'design_ref': '5/C14',
+    },
+    'C16': {
+        'level': 'model_checking',
+        'text': 'ProfTree.tla (writer per-stack walk and node identity, reader MergeTrie and BFS as operators, order-free definitions of tree, merge and layout) is checked exhaustively by TLC over all small profiles '
+                '(2-3 functions, depth <= 3-4 incl. recursion, shared frames and empty stacks, <= 3-4 samples, 1-2 sample types, <= 3 profiles): mechanism = definition, conservation per node and type, root sums, '
+                'merge commutative/associative and equal to the build of the bag union, layout nests. Every TLC state is concretised to a real pprof, pushed through the REAL multipart and binary parsers and the '
+                'REAL reader MergeTrie/BFS in all profile orders and row orders and compared; a seeded sample of reader outputs is validated by TLC.',
+        'note': 'node-id hashing modelled as injective; open finding: a sample with an empty stack is counted in values_agg but contributes to no root total.',
+        'technique': 'TLA+ model checking (TLC) + exhaustive model-based case replay + TLC validation of recorded observations',
+        'design_ref': '5/C16',
+    },
+    'C17': {
+        'level': 'model_checking',
+        'text': 'PromCursor.tla runs the transcription of seriesIt (binary search as written) in lock step with the chunkenc.Iterator contract for all arrays <= 4 over 1..6 x all call sequences; Selector.tla checks the '
+                'label-index bitmask query against matcher semantics for all DBs <= 3 series x matcher sets <= 3. TLC exports the contract table and every case; the driver replays all call sequences on the REAL '
+                'iterator and all cases through the REAL CLokiQuerier.Select, the Prometheus series/label-values routes and the Pyroscope routes over chsql, and compares the vendored Prometheus engine over the '
+                'real qryn Queryable with the same engine over a real Prometheus TSDB.',
+        'note': '33 open signatures: Seek (lower bound, backwards, revival, empty panic), missing-label and unanchored-regex matchers, 9+ matchers, duplicate label sets, hint pre-aggregation misalignments, range-start sample excluded.',
+        'technique': 'TLA+ model checking (TLC) + exhaustive replay through the real cursor/selectors + differential PromQL against a Prometheus TSDB',
+        'design_ref': '5/C17',
+    },
 }
 
 NOT_YET = 'check not built yet in this round (planned, see DESIGN.md section 5); not claimed until its machinery runs'
